@@ -18,6 +18,9 @@ def cases(tier, seed):
     for s in range(3 if tier == "quick" else 8):
         for depth in (1, 2, 4, None):
             yield dict(kind="tree", seed=seed + s, depth=depth, clf=(s % 2 == 0))
+        for mln in (4, 7):
+            # best-first growth: nodes are NOT stored depth-first (a left child is not always its parent's successor)
+            yield dict(kind="tree", seed=seed + s, depth=None, clf=(s % 2 == 0), max_leaf_nodes=mln)
     yield dict(kind="tree-threshold-minus-2")
 
 
@@ -55,7 +58,8 @@ def check(c):
         rs = numpy.random.RandomState(c["seed"])
         X = rs.randint(-3, 4, size=(40, 2)).astype(float)
         y = (X[:, 0] * 2 - X[:, 1]).astype(int) if c["clf"] else X[:, 0] * 2 - X[:, 1] + rs.rand(40)
-        m = (DecisionTreeClassifier if c["clf"] else DecisionTreeRegressor)(max_depth=c["depth"], random_state=0).fit(X, y)
+        m = (DecisionTreeClassifier if c["clf"] else DecisionTreeRegressor)(max_depth=c["depth"], random_state=0,
+                                                                            max_leaf_nodes=c.get("max_leaf_nodes")).fit(X, y)
         Q = numpy.vstack([X, rs.randint(-5, 6, size=(30, 2)).astype(float) + 0.5])
     t = m.tree_
     leaves = [i for i in range(t.node_count) if t.children_left[i] == -1]
